@@ -92,6 +92,16 @@ pub open spec fn psound(ev: &Evaluator<'_>, slots: SlotEnv, e: Expr, r: Result<P
         Err(err) => err is RecursionLimit || perr(ev, slots, e),
     }
 }
+/// the C13 property for the condition of one policy (`partial_evaluate`): a definite answer is every completion's answer,
+/// a residual condition is satisfied / unsatisfied / erroring under a completion exactly when the policy is, an error means
+/// the policy errors under every completion
+pub open spec fn ppolicy(ev: &Evaluator<'_>, slots: SlotEnv, cond: Expr, r: Result<Either<bool, Expr>>) -> bool {
+    forall|ev2: &Evaluator<'_>| #[trigger] refines(ev, slots, ev2) && kinds_ok(ev2, cond) ==> match r {
+        Ok(Either::Left(b)) => agree3(Res::Val(vbool(b)), want_bool(sem(ev2, slots, cond))),
+        Ok(Either::Right(x)) => kinds_ok(ev2, x) && agree3(want_bool(sem(ev2, slots, x)), want_bool(sem(ev2, slots, cond))),
+        Err(err) => err is RecursionLimit || !(want_bool(sem(ev2, slots, cond)) is Val),
+    }
+}
 /// the node's own semantics S, computed from its operands' values under ev, is what every completion gives
 pub open spec fn resv(ev: &Evaluator<'_>, slots: SlotEnv, e: Expr, s: Res) -> bool {
     match s { Res::Val(k) => pval(ev, slots, e, k), Res::Unk => true, _ => perr(ev, slots, e) }
